@@ -84,7 +84,7 @@ ExternalsUsed(sgs) ==
 ValueTypesAgree(sgs) ==
   \A tn \in Range(AllTypeNames(sgs)) :
      LET defs == DefsOf(sgs, tn)
-     IN (defs[1].kind = "OBJECT" /\ tn # "Query" /\ \A i \in DOMAIN defs : defs[i].keys = <<>>) =>
+     IN (defs[1].kind = "OBJECT" /\ tn \notin {"Query", "Mutation"} /\ \A i \in DOMAIN defs : defs[i].keys = <<>>) =>
           \A i, j \in DOMAIN defs : FSNames(defs[i].fields) = FSNames(defs[j].fields)
 
 Composable(sgs) == SameShape(sgs) /\ ExternalsUsed(sgs) /\ EntityReachable(sgs) /\ ValueTypesAgree(sgs)
